@@ -70,7 +70,17 @@ macro_rules! collect {
                     // Decoder::decode_into is the same function with a caller-supplied buffer: same text or the same refusal
                     let mut sbuf = String::from("#");
                     let decoded2 = dec.decode_into(&bytes, &mut sbuf).ok().map(|_| sbuf[1..].to_string());
-                    let k = if decoded == decoded2 { kind(&ev).to_string() } else { "DecodeIntoDisagrees".to_string() };
+                    let mut k = if decoded == decoded2 { kind(&ev).to_string() } else { "DecodeIntoDisagrees".to_string() };
+                    // a CDATA section converted to a text event (BytesCData::escape / partial_escape / minimal_escape) and
+                    // unescaped again is the decoded content of the section
+                    if let Event::CData(c) = &ev {
+                        for (name, t) in [("escape", c.clone().escape()), ("partial_escape", c.clone().partial_escape()), ("minimal_escape", c.clone().minimal_escape())] {
+                            let back = t.ok().and_then(|t| t.unescape().ok().map(|x| x.into_owned()));
+                            if back != decoded && decoded.is_some() {
+                                k = format!("CData::{name}+unescape disagrees with decode");
+                            }
+                        }
+                    }
                     out.push(Ev { k, bytes, decoded, label, enc: dec.encoding().name().to_string() });
                 }
                 Err(_) => {
